@@ -1211,10 +1211,13 @@ class XsdGroup(XsdComponent, MutableSequence[ModelParticleType],
             reason = _("wrong content type {!r}").format(type(obj.content))
             context.validation_error(validation, self, reason, elem)
 
-        if not self.mixed and text and text.strip() and self and \
-                (len(self) > 1 or not isinstance(self[0], XsdAnyElement)):
-            reason = _("character data between child elements not allowed")
-            context.validation_error(validation, self, reason, elem)
+        if not self.mixed and text and text.strip():
+            if not self:
+                reason = _("character data is not allowed because content is empty")
+                context.validation_error(validation, self, reason, elem)
+            elif len(self) > 1 or not isinstance(self[0], XsdAnyElement):
+                reason = _("character data between child elements not allowed")
+                context.validation_error(validation, self, reason, elem)
 
         for index, particle, occurs, expected in errors:
             context.children_validation_error(
